@@ -446,6 +446,10 @@ fn do_panic(w: &Arc<World>, op: OpId) -> ! {
         i.panic_clock = i.clock;
     });
     w.hist(|| format!("PANIC injected in #{}", op));
+    if w.case.cfg.payload_bomb {
+        // the payload's destructor panics in turn when it is a pool thread that discards it (dv-injected as well: the message says so)
+        std::panic::panic_any(vsched::rt::DropBomb { msg: format!("dv-injected panic in operation #{}", op), on_task_named: "desync jobs thread" });
+    }
     panic!("dv-injected panic in operation #{}", op);
 }
 
